@@ -91,6 +91,7 @@ EXPECTED_PROBES = [
     "probe.page_readahead_window_over_dirty_page", "probe.page_readahead_over_dirty_page_with_room", "probe.page_write_hit",
     "probe.page_flush_wrote", "probe.page_audit_completed", "probe.page_read_write_miss_same_page_behind_dirty_victim",
     "probe.lower_tier_hit_while_write_in_flight",
+    "probe.page_write_miss_waited_for_room", "probe.page_read_landed_inside_write_miss_wait",
 ]
 SHRINK_SKIP = ("family", "klass")
 
